@@ -141,13 +141,16 @@ func (p *Pigeon) Tick() {
 		}
 		missing := false
 		for _, id := range b.Order {
-			if !have[id] {
+			if !have[id] && !b.BCfg.NoAcctOn[p.V.Idx][id] {
 				missing = true
 			}
 		}
 		if missing {
 			var list []*valsettypes.ExternalChainInfo
 			for _, id := range b.Order {
+				if b.BCfg.NoAcctOn[p.V.Idx][id] {
+					continue
+				}
 				k := p.V.Eth[id]
 				var traits []string
 				if b.BCfg.MevVals[p.V.Idx] {
@@ -192,12 +195,15 @@ func (p *Pigeon) Tick() {
 
 	// 4. consensus queues
 	for _, id := range b.Order {
+		if b.BCfg.NoAcctOn[p.V.Idx][id] {
+			continue
+		}
 		p.tickQueue(id)
 	}
 	// 5. bridge
 	if !p.NoSkyway {
 		for _, id := range b.Order {
-			if b.ChainActive(id) {
+			if b.ChainActive(id) && !b.BCfg.NoAcctOn[p.V.Idx][id] {
 				p.tickSkyway(id)
 			}
 		}
@@ -237,6 +243,9 @@ func (p *Pigeon) tickQueue(chain string) {
 		if err == nil && len(res.MessagesToEstimate) > 0 {
 			var est []*consensustypes.MsgAddMessageGasEstimates_GasEstimate
 			for _, m := range res.MessagesToEstimate {
+				if b.holdEstimate(m.Id) {
+					continue
+				}
 				v := p.honestEstimate(m.Id)
 				if p.Hooks.Estimate != nil {
 					v = p.Hooks.Estimate(chain, m.Id, v)
@@ -246,7 +255,9 @@ func (p *Pigeon) tickQueue(chain string) {
 					break
 				}
 			}
-			p.send("estimate", &consensustypes.MsgAddMessageGasEstimates{Metadata: p.meta(), Estimates: est})
+			if len(est) > 0 {
+				p.send("estimate", &consensustypes.MsgAddMessageGasEstimates{Metadata: p.meta(), Estimates: est})
+			}
 		}
 	}
 	// relay
